@@ -344,6 +344,7 @@ class World:
         self.harness_channel = self.harness_conn.channel()
         self.broker.tap("asl_workflow_engine", "#", self._on_notification)
         self.after_step = []        # monitors: fn(world, label)
+        self.on_notify = []         # monitors: fn(world, notification), called at the instant a notification is published
         self.engine_exceptions = [] # exceptions that escaped an engine callback
         self.eager_time = True      # offer "advance the clock" even while deliveries are enabled (models slow delivery)
         self.choice_log = []        # number of enabled actions at every step (for exhaustive schedule enumeration)
@@ -354,9 +355,11 @@ class World:
             body = json.loads(msg.body.decode("utf8"))
         except Exception:
             body = None
-        self.notifications.append({"t": self.clock.now, "subject": msg.routing_key, "body": body,
-                                   "seq": len(self.broker.oplog), "expiration": msg.props.expiration,
-                                   "owner": msg.publisher})
+        n = {"t": self.clock.now, "subject": msg.routing_key, "body": body, "seq": len(self.broker.oplog),
+             "expiration": msg.props.expiration, "owner": msg.publisher}
+        self.notifications.append(n)
+        for fn in self.on_notify:
+            fn(self, n)
 
     def add_engine(self, instance_id="A", transport="asyncio"):
         e = Engine(self, instance_id, transport)
